@@ -258,6 +258,8 @@ def evaluate(prop, outdir):
     monitor, corr = [], []
     metas = {}
     for cf in sorted(glob.glob(os.path.join(outdir, '*.cases'))):
+        if prop.get('case_files') is not None and os.path.basename(cf)[:-6] not in prop['case_files'] and os.path.basename(cf) != 'corpus.cases':
+            continue
         c, mism, tg = run_driver(cf)
         total += c
         for t, n in tg.items():
@@ -271,12 +273,16 @@ def evaluate(prop, outdir):
         if os.path.exists(mp):
             metas[os.path.basename(cf)[:-6]] = json.load(open(mp))
     for dp in sorted(glob.glob(os.path.join(outdir, '*.direct.json'))):
+        if prop.get('direct_files') is not None and os.path.basename(dp)[:-12] not in prop['direct_files']:
+            continue
         dm = json.load(open(dp))
         total += int(dm.get('cases', 0))
         metas[os.path.basename(dp)[:-12]] = dm
     viol_files = sorted(glob.glob(os.path.join(outdir, '*.violations.json')))
     direct = []
     for vf in viol_files:
+        if prop.get('direct_files') is not None and os.path.basename(vf)[:-16] not in prop['direct_files'] and os.path.basename(vf) != 'race.violations.json':
+            continue
         direct += json.load(open(vf))
     return dict(total=total, tags=tags, monitor=monitor, corr=corr, metas=metas, direct=direct)
 
